@@ -27,7 +27,8 @@ A_MIX = ["[C]", "[=C]", "[O]", "[Ring1]", "[Branch1]",
 A_MIX2 = ["[C]", "[#N]", "[Branch1_3]", "[Branch3_1]", "[Expl=Ring2]", "[Expl/Ring2]", "[=13CH2expl]", "[\\N-expl]",
           "[Fe++expl]", "[cexpl]", "[Xxexpl]", "[Branch1_4]", "[ExplRing1]", "[nop]", "[O-2expl]", "."]
 A_MIX3 = ["[C]", "[=C]", "[#C]", "[S]", "[Branch1_1]", "[Branch1_2]", "[Branch1_3]", "[Expl=Ring1]", "[Expl#Ring1]", "[Ring1]"]
-ALPH = {"mix": A_MIX, "mix2": A_MIX2, "mix3": A_MIX3}
+A_MIX4 = ["[C]", "[F]", "[Branch1_1]", "[Branch1]", "[Ring1]", "[nop]", "[=O]"]      # early-ending branches with [nop] in the discarded tail
+ALPH = {"mix": A_MIX, "mix2": A_MIX2, "mix3": A_MIX3, "mix4": A_MIX4}
 
 ATOM_GRID = []
 for b in ("", "=", "#", "/", "\\"):
@@ -42,7 +43,7 @@ for b in ("", "=", "#", "/", "\\"):
 def plan(tier, seed):
     thorough = tier == "thorough"
     grid = [("mix", "default", 5 if thorough else 4), ("mix2", "default", 5 if thorough else 4),
-            ("mix3", "default", 7 if thorough else 6)]
+            ("mix3", "default", 7 if thorough else 6), ("mix4", "default", 7 if thorough else 6)]
     extras = [("mix", "mix", 3), ("mix2", "hypervalent", 3), ("mix", "big", 3)]
     grid.append(extras[seed % len(extras)])
     scopes, tasks = [], []
